@@ -25,6 +25,7 @@ import os
 import re
 import resource
 import shutil
+import signal
 import subprocess
 import sys
 import time
@@ -58,22 +59,31 @@ def log(msg):
 
 
 def run(cmd, env=None, cwd=None, timeout=None, out=None, mem_gb=None):
+    """Runs cmd in its own process group; on timeout the whole group is killed (cbmc runs under
+    /usr/bin/time, killing only the direct child would orphan the solver)."""
     def limits():
+        os.setsid()
         if mem_gb:
             lim = int(mem_gb * 1024 ** 3)
             resource.setrlimit(resource.RLIMIT_AS, (lim, lim))
     t0 = time.time()
+    f = open(out, "w") if out else None
+    p = subprocess.Popen(cmd, env=env, cwd=cwd, stdout=f if f else subprocess.PIPE,
+                         stderr=subprocess.STDOUT, preexec_fn=limits)
     try:
-        if out:
-            with open(out, "w") as f:
-                p = subprocess.run(cmd, env=env, cwd=cwd, timeout=timeout, stdout=f,
-                                   stderr=subprocess.STDOUT, preexec_fn=limits)
-        else:
-            p = subprocess.run(cmd, env=env, cwd=cwd, timeout=timeout, stdout=subprocess.PIPE,
-                               stderr=subprocess.STDOUT, preexec_fn=limits)
-        return p.returncode, time.time() - t0, (p.stdout.decode("utf8", "replace") if not out else "")
+        stdout, _ = p.communicate(timeout=timeout)
+        rc = p.returncode
     except subprocess.TimeoutExpired:
-        return 124, time.time() - t0, ""
+        try:
+            os.killpg(p.pid, signal.SIGKILL)
+        except OSError:
+            pass
+        stdout, _ = p.communicate()
+        rc = 124
+    finally:
+        if f:
+            f.close()
+    return rc, time.time() - t0, (stdout.decode("utf8", "replace") if stdout else "")
 
 
 # -------------------------------------------------------------------------------------------------
